@@ -346,7 +346,8 @@ int main(int argc, char **argv) {
       for (int k = 0; k < 2; k++) {
         if (!vp::mine(caseno++)) continue;
         run_case(5, bits, k, -1, nontriv, false);
-        if ((bits & 0xffff) == 0 && vp::past_deadline()) {
+        static uint64_t mine_count = 0;
+        if ((++mine_count & 0xfff) == 0 && vp::past_deadline()) {
           vp::incomplete("n=5 graphs cut at bits=" + std::to_string(bits));
           cut = true;
           break;
